@@ -23,18 +23,66 @@ Proof.
   apply noL_app; [apply H; left; reflexivity | apply IH; intros x Hx; apply H; right; exact Hx].
 Qed.
 
-Lemma noL_ctor_funcs : forall b ks vs, noL (ctor_funcs b ks vs).
+Lemma noL_ctor_funcs : forall n b ks vs, noL (ctor_funcs n b ks vs).
 Proof.
-  intros b ks. induction ks as [|k ks IH]; intros vs; [destruct vs; apply noL_nil|].
-  destruct vs as [|v vs]; [destruct k as [[]|]; apply noL_nil|].
-  destruct k as [ke|]; [|cbn [ctor_funcs]; apply IH].
-  destruct ke; cbn [ctor_funcs]; try apply IH.
-  apply noL_app; [|apply IH]. destruct (is_efunc v); [constructor; [reflexivity | constructor] | apply noL_nil].
+  induction n as [|n IH]; intros b ks vs; [apply noL_nil|]. cbn [ctor_funcs].
+  destruct ks as [|k ks]; [apply noL_nil|]. destruct vs as [|v vs]; [destruct k as [[]|]; apply noL_nil|].
+  destruct k as [ke|]; [|apply IH].
+  destruct ke; try apply IH.
+  apply noL_app; [destruct (is_efunc v); [constructor; [reflexivity | constructor] | apply noL_nil]|].
+  apply noL_app; [destruct v; try apply noL_nil; apply IH | apply IH].
 Qed.
 
-Lemma noL_ctor_of : forall b v, noL (ctor_of b v).
+Lemma noL_ctor_of : forall n b v, noL (ctor_of n b v).
 Proof.
-  intros b v. unfold ctor_of. destruct v as [e|]; [|apply noL_nil]. destruct e; try apply noL_nil. apply noL_ctor_funcs.
+  intros n b v. unfold ctor_of. destruct v as [e|]; [|apply noL_nil]. destruct e; try apply noL_nil. apply noL_ctor_funcs.
+Qed.
+
+Lemma noL_member_occ : forall n b ks v, noL (member_occ n b ks v).
+Proof.
+  intros n b ks v. unfold member_occ. destruct (rev ks) as [|[k l] rpre]; [apply noL_nil|].
+  apply noL_app; [|apply noL_ctor_of]. destruct v as [fv|]; [|apply noL_nil].
+  destruct (is_efunc fv); [constructor; [reflexivity | constructor] | apply noL_nil].
+Qed.
+
+Lemma noL_local_fn_occs : forall nms ls es, noL (local_fn_occs nms ls es).
+Proof.
+  induction nms as [|nm nms IH]; intros ls es; [apply noL_nil|]. destruct ls as [|l ls]; [apply noL_nil|].
+  destruct es as [|e es]; [apply noL_nil|]. cbn [local_fn_occs]. apply noL_app; [|apply IH].
+  destruct (is_efunc e); [constructor; [reflexivity | constructor] | apply noL_nil].
+Qed.
+
+(* the occurrences of one assignment target (the body of the SAssign case of occ_stats) *)
+Lemma noL_target : forall n env t (v : option exp),
+    (forall env e, noL (occ_exp n env e)) ->
+    noL (match target_path t with
+         | Some (nm, []) =>
+           match t, lookup nm env with
+           | EName _ l, None => OGlobal nm l :: ctor_of n nm v
+           | _, Some Top => ctor_of n nm v
+           | _, _ => []
+           end
+         | Some (b, (k1, l1) :: ks) =>
+           if beq_bytes b SymbolSpec.s_G && match lookup b env with None => true | Some _ => false end then
+             match ks with
+             | [] => OGlobal k1 l1 :: ctor_of n k1 v
+             | _ => member_occ n k1 ks v
+             end
+           else
+             match lookup b env with
+             | Some Inner => []
+             | _ => member_occ n b ((k1, l1) :: ks) v
+             end
+         | None => match t with EIndex p k _ => occ_exp n env p ++ occ_exp n env k | _ => [] end
+         end).
+Proof.
+  intros n env t v IHe. destruct (target_path t) as [[nm [|[k1 l1] ks]]|].
+  - destruct t; destruct (lookup nm env) as [[|]|]; try apply noL_nil; try apply noL_ctor_of.
+    constructor; [reflexivity | apply noL_ctor_of].
+  - destruct (_ && _).
+    + destruct ks; [constructor; [reflexivity | apply noL_ctor_of] | apply noL_member_occ].
+    + destruct (lookup nm env) as [[|]|]; try apply noL_nil; apply noL_member_occ.
+  - destruct t; try apply noL_nil. apply noL_app; apply IHe.
 Qed.
 
 Lemma noL_in : forall os o, noL os -> In o os -> is_olocal o = true -> False.
@@ -81,17 +129,12 @@ Proof.
         -- apply noL_app; [apply noL_iter; intros a _; apply IHe|]. apply noL_app; [apply IHb | apply IHs].
         -- (* SAssign *)
            apply noL_app; [apply noL_iter; intros a _; apply IHe|]. apply noL_app; [|apply IHs].
-           apply noL_iter. intros [t v] _. cbn [fst snd].
-           destruct t; try apply noL_nil.
-           ++ destruct (lookup n0 env) as [[|]|]; noL_tac.
-           ++ destruct t1; try (apply noL_app; apply IHe).
-              destruct t2; try (apply noL_app; apply IHe).
-              destruct (lookup n0 env) as [[|]|]; destruct v as [fv|]; try apply noL_nil;
-                destruct (is_efunc fv); noL_tac.
+           apply noL_iter. intros [t v] _. cbn [fst snd]. apply noL_target. exact IHe.
         -- (* SLocal *)
-           apply noL_app; [apply noL_iter; intros a _; apply IHe|]. cbn [app]. apply IHs.
+           apply noL_app; [apply noL_iter; intros a _; apply IHe|]. cbn [app].
+           apply noL_app; [|apply IHs]. apply noL_app; [apply noL_local_fn_occs | apply noL_nil].
         -- (* SLocalFunc *)
-           cbn [app]. apply noL_app; [apply IHe | apply IHs].
+           cbn [app]. constructor; [reflexivity|]. apply noL_app; [apply IHe | apply IHs].
     + intros env b. cbn [occ_block]. destruct b as [ss ret l].
       (* occ_block (S n) = occ_stats n *)
       apply IHs.
@@ -141,23 +184,19 @@ Proof.
     + (* SAssign: as in noL_all *)
       apply in_app_noL in Hin; [|exact Ho|apply noL_iter; intros a _; apply IHe].
       apply in_app_noL in Hin; [eapply Htail; exact Hin|exact Ho|].
-      apply noL_iter. intros [t v] _. cbn [fst snd].
-      destruct t; try apply noL_nil.
-      * destruct (lookup n0 env) as [[|]|]; noL_tac.
-      * destruct t1; try (apply noL_app; apply IHe).
-        destruct t2; try (apply noL_app; apply IHe).
-        destruct (lookup n0 env) as [[|]|]; destruct v as [fv|]; try apply noL_nil;
-          destruct (is_efunc fv); noL_tac.
+      apply noL_iter. intros [t v] _. cbn [fst snd]. apply noL_target. exact IHe.
     + (* SLocal *)
       apply in_app_noL in Hin; [|exact Ho|apply noL_iter; intros a _; apply IHe].
       apply in_app_or in Hin. destruct Hin as [Hin|Hin].
       * exists (SLocal lnames llocs lattrs les ll2). split; [left; reflexivity | exact Hin].
       * apply in_app_noL in Hin; [eapply Htail; exact Hin|exact Ho|].
+        apply noL_app; [apply noL_local_fn_occs|].
         destruct lnames as [|b0 [|? ?]]; try apply noL_nil. destruct les as [|v0 [|? ?]]; try apply noL_nil. apply noL_ctor_of.
     + (* SLocalFunc *)
       cbn [app] in Hin. destruct Hin as [Hin|Hin].
       * exists (SLocalFunc fname fnl ff fl2). split; [left; reflexivity | left; exact Hin].
-      * apply in_app_noL in Hin; [|exact Ho|apply IHe]. eapply Htail; exact Hin.
+      * destruct Hin as [Hin|Hin]; [subst o; discriminate|].
+        apply in_app_noL in Hin; [|exact Ho|apply IHe]. eapply Htail; exact Hin.
 Qed.
 
 (* an OLocal occurrence of a statement is one of its `local` declarations *)
@@ -213,16 +252,18 @@ Proof.
                                                        | OLocal n l => ds ++ [mkD DLocal n [l]]
                                                        | OGlobal n l => add_cand DGlobal n l ds
                                                        | OFunc b k l => add_cand DFunc (member_key b k) l ds
+                                                       | OLocalFn n l => ds ++ [mkD DLocalFn n [l]]
                                                        end) os' ds) ->
                          d_kind d = DLocal -> exists n l, d = mkD DLocal n [l] /\ In (OLocal n l) os).
   { intros ds Hds os'. revert ds Hds. induction os' as [|o os' IH]; intros ds Hds Hsub Hin Hk; cbn [fold_left] in Hin.
     - apply Hds; assumption.
     - eapply IH; [| intros o' Ho'; apply Hsub; right; exact Ho' | exact Hin | exact Hk].
-      intros d0 Hd0 Hk0. destruct o as [n l|n l|b k l].
+      intros d0 Hd0 Hk0. destruct o as [n l|n l|b k l|n l].
       + apply in_app_or in Hd0. destruct Hd0 as [Hd0|[<-|[]]]; [apply Hds; assumption|].
         exists n, l. split; [reflexivity | apply Hsub; left; reflexivity].
       + apply Hds; [|exact Hk0]. eapply add_cand_local; [|exact Hd0|exact Hk0]. discriminate.
-      + apply Hds; [|exact Hk0]. eapply add_cand_local; [|exact Hd0|exact Hk0]. discriminate. }
+      + apply Hds; [|exact Hk0]. eapply add_cand_local; [|exact Hd0|exact Hk0]. discriminate.
+      + apply in_app_or in Hd0. destruct Hd0 as [Hd0|[<-|[]]]; [apply Hds; assumption|]. cbn in Hk0. discriminate. }
   intros Hin Hk. eapply (H [] ); [intros d0 []| intros o Ho; exact Ho | exact Hin | exact Hk].
 Qed.
 
